@@ -1,5 +1,5 @@
 from mindsdb_sql.parser.ast.base import ASTNode
-from mindsdb_sql.parser.utils import indent
+from mindsdb_sql.parser.utils import indent, params_to_string
 
 
 class CreateSkill(ASTNode):
@@ -31,9 +31,7 @@ class CreateSkill(ASTNode):
         return out_str
 
     def get_string(self, *args, **kwargs):
-        using_ar = [f'type={repr(self.type)}']
-        using_ar += [f'{k}={repr(v)}' for k, v in self.params.items()]
-        using_str = ', '.join(using_ar)
+        using_str = params_to_string({'type': self.type, **self.params})
 
         out_str = f'CREATE SKILL {"IF NOT EXISTS " if self.if_not_exists else ""}{self.name.to_string()} USING {using_str}'
         return out_str
@@ -62,8 +60,7 @@ class UpdateSkill(ASTNode):
         return out_str
 
     def get_string(self, *args, **kwargs):
-        set_ar = [f'{k}={repr(v)}' for k, v in self.params.items()]
-        set_str = ', '.join(set_ar)
+        set_str = params_to_string(self.params)
 
         out_str = f'UPDATE SKILL {self.name.to_string()} SET {set_str}'
         return out_str
